@@ -230,8 +230,10 @@ induction vp as [|e r IH]; intros newq vp' Hf H.
   + (* I *)
     destruct (0 <? length (vref (vvar e))) eqn:El.
     * injection H as <- <-. split; [now exists []|intros ? []].
-    * apply Nat.ltb_ge in El. destruct (enqueue sk OpI nv r rp qp ref_end) as [a b] eqn:Eab. injection H as <- <-.
-      apply (Htake a b eq_refl); [reflexivity|intros _; lia].
+    * apply Nat.ltb_ge in El. destruct (sk && (vpos (vvar e) =? rp)).
+      -- destruct (enqueue sk OpI nv r rp qp ref_end) as [a b] eqn:Eab. now apply Hskip.
+      -- destruct (enqueue sk OpI nv r rp qp ref_end) as [a b] eqn:Eab. injection H as <- <-.
+         apply (Htake a b eq_refl); [reflexivity|intros _; lia].
   + (* D *)
     destruct (length (vref (vvar e)) =? 0).
     * destruct (enqueue sk OpD nv r rp qp ref_end) as [a b] eqn:Eab. now apply Hskip.
@@ -370,7 +372,7 @@ induction cig as [|[op len] cig IH]; intros pre vp queue flank Hw Hf Hs Hq y Hy.
   destruct op.
   + (* M *) apply (Hwork (r_ins_left_flank R && negb flank) (start + ref_units (expand pre) + len) (or_intror (Nat.le_refl _))); [auto|].
     rewrite Hru, Hqu. cbn [ref_unit query_unit]. rewrite !Nat.mul_1_l, !Nat.add_assoc. exact Hy.
-  + (* I *) apply (Hwork (r_ins_left_flank R && negb flank)
+  + (* I *) apply (Hwork (r_ins_flank_at_ins R && negb flank)
                         (start + ref_units (expand pre) + (if r_ins_span R then 1 else len))); auto.
     rewrite Hru, Hqu. cbn [ref_unit query_unit]. rewrite Nat.mul_0_l, Nat.mul_1_l, Nat.add_0_r. exact Hy.
   + (* D *) apply (Hwork (r_ins_left_flank R && negb flank) (start + ref_units (expand pre) + len) (or_intror (Nat.le_refl _))); [auto|].
